@@ -49,16 +49,28 @@ def strip_comments(src):
     return ''.join(out)
 
 
+# which tie modules (Proofs/FactsTie/*.lean) carry constants that a property's model depends on
+FACT_TIES = {
+    'C01': ['Sxg', 'Mice', 'Cert'], 'C02': ['Sxg', 'Mice', 'Cert'], 'C08': ['Sxg', 'Mice'], 'C09': ['Sxg'],
+    'C03': ['Bundle'], 'C04': ['Bundle'], 'C05': ['Bundle'], 'C06': ['Bundle', 'Mice', 'Cert'], 'C07': ['IB'],
+    'C10': ['Sxg', 'Bundle', 'Cert', 'Mice', 'IB'], 'C14': ['Mice'], 'C15': ['Mice'], 'C17': ['Cert'],
+    'C18': ['Sxg', 'Bundle', 'Cert', 'IB', 'Mice'], 'C19': ['Sxg', 'Bundle', 'Cert', 'Mice'], 'C20': ['Sxg', 'Bundle', 'Cert', 'IB', 'Mice'],
+}
+
+
 def lean_check(pid, tier):
     """returns dict(ok, obligations, discharged, theorems, failures[list of str])"""
     res = dict(ok=True, obligations=0, discharged=0, theorems=[], failures=[], axioms={})
     facts = regenerate_facts()
     if facts:
+        res['ok'] = False
         res['failures'].append('facts extractor: ' + facts)
     mod = f'WebPkg.Properties.{pid}'
     targets = [mod, 'wpmodel']
-    if os.path.exists(os.path.join(ROOT, 'tools', 'extract_facts.py')):
-        targets.append('WebPkg.Proofs.FactsTie')
+    # regenerated tie: constants / tables of the Go sources (Gen/Facts.lean, rewritten above) against the model's
+    ties = ['WebPkg.Proofs.FactsTie.' + t for t in FACT_TIES.get(pid, [])]
+    res['fact_ties'] = ties
+    targets += ties
     r = run(['lake', 'build'] + targets, cwd=LEAN)
     if r.returncode != 0:
         res['ok'] = False
@@ -440,7 +452,9 @@ def write_evidence(pid, tier, seed, lean, ops, classes, distinct, nviol, t0, gen
         'checker_cmd': f'cd lean && lake build WebPkg.Properties.{pid} && lake env lean WebPkg/Audit/{pid}.lean' + (f' && lake env leanchecker WebPkg.Properties.{pid}' if tier == 'thorough' else ''),
         'trusted_base': ['Lean 4.33.0 kernel', 'axioms: propext, Classical.choice, Quot.sound (per theorem in axioms_per_theorem)',
                          'correspondence check (Go harness + Lean driver + generators) tying the hand-written model to /repo',
+                         'fact extractor tools/extract (go/ast) regenerating Gen/Facts.lean from /repo on every run; Proofs/FactsTie/*.lean ties the model constants to it',
                          ] + gen.TRUSTED,
+        'regenerated_fact_ties': lean.get('fact_ties', []),
         'theorems': lean['theorems'],
         'axioms_per_theorem': lean['axioms'],
         'proof_failures': lean['failures'],
